@@ -49,8 +49,7 @@ def judge(scn, log=None):
     fins = [o for o in scn["writer_ops"] if o in ("close", "exit")]
     fails = []
     if wr.error:
-        fails.append({"oracle": "C11.writer.no_exception", "detail": f"writer op raised {wr.error}",
-                      "sig": f"C11.writer.no_exception|{tag}|{wr.error[0]}"})
+        # a write op raising on a well-formed item is C03 / C06's business; nothing to judge here
         return fails, wr
     if wr.fin_errors:
         fails.append({"oracle": "C11.finalisation.no_exception",
